@@ -472,7 +472,9 @@ func init() {
 				// ---- client side
 				if x.Truncated {
 					// the backend died in the middle of the body: both clients must be able to tell
-					if dres.Err == "" && dres.Complete {
+					if x.Req.Method == "HEAD" {
+						continue // no body is transferred: nothing can be cut
+					} else if dres.Err == "" && dres.Complete {
 						o.Inconcl("direct exchange %q: the cut body was not noticed by the reference client", x.Label)
 					} else if pres.Err == "" && pres.Complete {
 						viol("truncation-hidden", fmt.Sprintf("the backend cut the body after %d bytes; the direct client sees %q, the client behind Helios received a response that looks complete (%d bytes)", dres.BodyLen, dres.Err, pres.BodyLen))
